@@ -159,6 +159,9 @@ MUTATIONS += [
     dict(id="C11-pred-ctime-or", prop="C11", file=PA, old="                    && match_ctime\n                    && match_inode", new="                    && (match_ctime || match_inode)"),
     dict(id="C11-pred-size-le", prop="C11", file=PA, old="                    && p_meta.size == meta.size\n", new="                    && p_meta.size <= meta.size\n"),
     dict(id="C11-pred-ignore-ctime-inverted", prop="C11", file=PA, old="                    ignore_ctime || p_meta.ctime.zip(meta.ctime).is_none_or(|(x, y)| x == y);", new="                    !ignore_ctime || p_meta.ctime.zip(meta.ctime).is_none_or(|(x, y)| x == y);"),
+    dict(id="C11-lookup-skips-larger", prop="C11", file=PA, old="                        Ordering::Greater => {\n                            break None;\n                        }", new="                        Ordering::Greater => *idx += 1,"),
+    dict(id="C11-lookup-equal-advances-first", prop="C11", file=PA, old="                        Ordering::Equal => {\n                            break Some(p_node);", new="                        Ordering::Equal => {\n                            *idx += 1;\n                            break Some(p_node);"),
+    dict(id="C11-lookup-less-gives-up", prop="C11", file=PA, old="                        Ordering::Less => *idx += 1,", new="                        Ordering::Less => break None,"),
 ]
 
 # ---- C08 header size folds (Verus, unbounded)
